@@ -5,7 +5,7 @@ ASSUMPTIONS = [
     'PROVED (lemma-instance obligations C12.exact.*; nonlinear arithmetic as uninterpreted functions, every arithmetic fact an instance of a lemma that Lean 4 + Mathlib accept in the same run): '
     'mul_mod and pow_mod return the exact residue and no product wraps; gcd, is_perfect_square, multiplicity are exact; jacobi_symbol_positive_numerator is start * (a|n) with Mathlib\'s jacobiSym as the specification',
     'ASSUMED: Baillie-PSW has no 64-bit counterexample (published computational result), i.e. miller_rabin / strong_lucas classify correctly; the Lucas sequence steps compute U_k, V_k (only ranges and '
-    'call-site preconditions are under contract); find_pollard_rho_factor returns a divisor; the Selfridge search returns D.mag < 2^31 (data invariant of LucasDParameter in every contract that takes one)',
+    'call-site preconditions are under contract); the Selfridge search returns D.mag < 2^31 (data invariant of LucasDParameter in every contract that takes one)',
     'trusted base of the lemma route: the term printer of vf/lemma.py (one term -> C instance and Lean statement), Lean\'s kernel, Mathlib\'s definitions of Nat.gcd, Nat.sqrt, jacobiSym; CBMC\'s treatment of '
     '__CPROVER_uninterpreted_* symbols as functions',
     'termination is proved only where a decreases clause is given',
@@ -209,9 +209,11 @@ def obligations(tier, seed):
     obs.append(Ob(id='C12.exact.gcd', prop='C12', group='C12', prelude=PRE, wrappers=WRAPS, inputs=[('uint64_t', 'a'), ('uint64_t', 'b')],
                   body="""
   vf_ghost[0] = a; vf_ghost[1] = b;
+  ASSUME(%s);   /* lemma g_div at (a, b) */
   uint64_t r = TARGET(a, b);
   CHECK(r == SPEC_gcd(a, b), "result-is-the-greatest-common-divisor");
-""",
+  CHECK(a == 0 || (r >= 1 && r <= a && LL2C_UREM64(a, r) == 0), "for-a-nonzero-the-result-is-a-divisor-of-a-between-1-and-a");
+""" % CL.g_div.inst(a='a', b='b'),
                   kind='L', promote=False, wrap=True, budget=300, defs=('LL2C_UF_ARITH=1',), needs=('C12.lemmas.gcd',),
                   dfcc=dict(target=M['gcd'],
                             native_search=dict(pre='true', call='au::detail::gcd(a, b)', ret='uint64_t', post='r == ref_gcd(a, b)',
@@ -385,6 +387,23 @@ def obligations(tier, seed):
                             contracts={M['pollard']: pc, M['x2t']: CONTRACTS['x2t'], M['gcd']: CONTRACTS['gcd_div'], M['absdiff']: CONTRACTS['absdiff']}),
                   contract='find_pollard_rho_factor(n), n > 4: the failure value n is returned only when the parameter loop is exhausted (t >= n/2 at exit); a factor handed back from inside '
                            'the loop is < n.  Callees under their contracts; gcd in [1, n] ASSUMED', functions_under_contract=('au::detail::find_pollard_rho_factor',)))
+    gcd_exact_div = dict(requires=[], ensures=['%s == SPEC_gcd(v_a, v_b)' % RV, 'v_a == 0 || (%s >= 1 && %s <= v_a && LL2C_UREM64(v_a, %s) == 0)' % (RV, RV, RV)], assigns='')
+    pcd = dict(requires=[], ensures=[], assigns='',
+               loops={0: dict(CONTRACTS['pollard']['loops'][0]),
+                      1: dict(CONTRACTS['pollard']['loops'][1], invariant=CONTRACTS['pollard']['loops'][1]['invariant'] + ['LL2C_UREM64(m_n_addr, m_factor) == 0'])})
+    obs.append(Ob(id='C12.exact.find_pollard_rho_factor.divides', prop='C12', group='C12', prelude=PRE, wrappers=WRAPS, inputs=[('uint64_t', 'n')], body="""
+  ASSUME(n > 4);
+  ASSUME(%s);   /* lemma g_div at (n, n): n divides n */
+  uint64_t r = TARGET(n);
+  CHECK(r >= 1 && r <= n && LL2C_UREM64(n, r) == 0, "the-result-divides-n");
+""" % CL.g_div.inst(a='n', b='n'), kind='L', promote=False, wrap=False, budget=300, defs=('LL2C_UF_ARITH=1',), needs=('C12.lemmas.gcd',),
+                  dfcc=dict(target=M['pollard'], replace=[M['x2t'], M['gcd'], M['absdiff']],
+                            native_search=dict(pre='n > 4 && n < 1000000000000ULL', call='au::detail::find_pollard_rho_factor(n)', ret='uint64_t', post='r >= 1 && r <= n && n % r == 0',
+                                               adjust='n = n % 1000000000000ULL;'),
+                            contracts={M['pollard']: pcd, M['x2t']: CONTRACTS['x2t'], M['gcd']: gcd_exact_div, M['absdiff']: CONTRACTS['absdiff']}),
+                  contract='find_pollard_rho_factor(n), n > 4, returns a DIVISOR of n in [1, n]: inner-loop invariant n mod factor == 0; gcd is replaced by its exact contract '
+                           '(value == gcd and, for a != 0, a divisor of a in [1, a]: both clauses proved on gcd itself by C12.exact.gcd with lemma g_div)',
+                  functions_under_contract=('au::detail::find_pollard_rho_factor',)))
     obs.append(D('C12.callsites.find_pollard_rho_factor', 'pollard', '  uint64_t n;\n  f_%s(n);' % M['pollard'], replace=('x2t', 'gcd', 'absdiff'), wrap=False,
                  contracts={M['gcd']: CONTRACTS['gcd_div']}, must=('postcondition', 'precondition', 'step'),
                  contract_text='find_pollard_rho_factor(n), requires n > 4: x_squared_plus_t_mod_n is always called with x < n and t < n (both loops: tortoise, hare < n; t < n/2), '
